@@ -2063,6 +2063,17 @@ class _GroupElem(ABC):
         dims = np.max(coordinates_n, 0) - np.min(coordinates_n, 0) + 1
         # here dims is a 3d array used in __Get_coordoNear to check if coordinates_n comes from an image/grid
         # If the coordinates come from an image/grid, the _Get_coordoNear function will be faster.
+        if coordinates_n.dtype == int:
+            # The image shortcut of _Get_coord_Near finds the pixels of an element from their position in the array: that holds for the pixels of an image only ((0, 0) first, x running fastest). Any other integer-typed coordinates are located like floats.
+            nX, nY = int(dims[0]), int(dims[1])
+            isImage = (
+                dims[2] == 1
+                and nX * nY == coordinates_n.shape[0]
+                and np.array_equal(coordinates_n[:, 0], np.tile(np.arange(nX), nY))
+                and np.array_equal(coordinates_n[:, 1], np.repeat(np.arange(nY), nX))
+            )
+            if not isImage:
+                coordinates_n = coordinates_n.astype(float)
 
         if needCoordinates:
             # Here we want to know the coordinates of the nodes in
